@@ -179,9 +179,10 @@ def prop_modules(prop_id):
     """Lean modules that carry the obligations of a property: EpsieProps.<id> and,
     when present, EpsieProps.<id>Table (obligations about the generated tables)."""
     mods = []
-    for suffix in ('', 'Table', 'Source'):
-        if os.path.exists(os.path.join(LEAN_DIR, 'EpsieProps', prop_id + suffix + '.lean')):
-            mods.append('EpsieProps.' + prop_id + suffix)
+    for f in sorted(os.listdir(os.path.join(LEAN_DIR, 'EpsieProps'))):
+        # EpsieProps/<id>.lean, <id>Table.lean (generated tables), <id>Source*.lean (source ties)
+        if f.endswith('.lean') and re.fullmatch(re.escape(prop_id) + r'(Table|Source\w*)?', f[:-5]):
+            mods.append('EpsieProps.' + f[:-5])
     return mods
 
 
